@@ -469,6 +469,18 @@ func (e *perEng) Gen(r *Rand, thorough bool, idx int) Case {
 	dump(n + 1)
 	dump(n + 1) // a failed Load is retried by the next op
 
+	// one case in five: two of the restarts (the first one and a later one) are followed by a writer that makes the file grow during the initial load
+	if mode != "kill" && idx%5 == 2 {
+		marked := 0
+
+		for i, op := range c.Ops {
+			if opName(op) == "reopen" && marked < 2 && (marked == 0 || i%3 == 0) {
+				c.Ops[i] = op + " grow=1"
+				marked++
+			}
+		}
+	}
+
 	if mode == "kill" {
 		hdr += fmt.Sprintf(" killat=%d delayus=%d", r.Intn(len(c.Ops)), r.Intn(3000))
 	}
@@ -595,6 +607,46 @@ func perMarshaler(e *perEng, stack string, zmin int) store.Marshaler { //nolint:
 	return m
 }
 
+// perGrowMarshaler: after `reopen grow=1` the first resource the initial load unmarshals is delayed while a writer
+// in another namespace (nsz, never used by the ops) stores enough incompressible data for the bbolt file to grow and
+// be remapped. A Load that reads inside its transaction keeps the writer waiting (bbolt remaps only when no read
+// transaction is open) and is unaffected; whatever a Load does with bytes of the file must happen under that protection.
+type perGrowMarshaler struct {
+	store.Marshaler
+	w *perWorld
+}
+
+func (m perGrowMarshaler) UnmarshalResource(b []byte) (resource.Resource, error) { //nolint:ireturn
+	if m.w.growArmed {
+		m.w.growArmed = false
+		bs, ctx := m.w.bs.WithNamespace("nsz"), m.w.ctx
+		seq := perFileSeq.Add(1)
+
+		go func() {
+			rng := NewRand(uint64(seq))
+
+			for i := 0; i < 12; i++ {
+				blob := make([]byte, 48*1024)
+				for j := range blob {
+					blob[j] = "0123456789abcdefghijklmnopqrstuvwxyzABCDEFGHIJKLMNOPQRSTUVWXYZ+/"[rng.Intn(64)]
+				}
+
+				r := NewTRes("nsz", "TZ", fmt.Sprintf("big%d-%d", seq, i))
+				r.spec = TSpec{S: string(blob)}
+
+				if err := bs.Put(ctx, "TZ", r); err != nil {
+					panic("grow writer: " + err.Error())
+				}
+			}
+		}()
+
+		// until the writer is done, or parked on bbolt's remap lock behind this Load's transaction
+		pipeSettle()
+	}
+
+	return m.Marshaler.UnmarshalResource(b)
+}
+
 // ---------------------------------------------------------------- the world of one case
 
 type perWorld struct {
@@ -610,6 +662,8 @@ type perWorld struct {
 	wctx    context.Context //nolint:containedctx
 	ck      []byte
 	seen    map[string]map[string]bool
+
+	growArmed bool
 }
 
 func (w *perWorld) faultsOf(ns string) *perFaults {
@@ -627,7 +681,7 @@ func (w *perWorld) faultsOf(ns string) *perFaults {
 func (w *perWorld) open() error {
 	bs, err := bolt.NewBackingStore(func() (*bbolt.DB, error) {
 		return bbolt.Open(w.path, 0o600, nil)
-	}, perMarshaler(w.e, w.h["stack"], w.h.Int("zmin")))
+	}, perGrowMarshaler{perMarshaler(w.e, w.h["stack"], w.h.Int("zmin")), w})
 	if err != nil {
 		return err
 	}
@@ -865,6 +919,8 @@ func (w *perWorld) exec(line string) (res string) {
 		if err := w.open(); err != nil {
 			return "PANIC reopen: " + err.Error()
 		}
+
+		w.growArmed = a["grow"] == "1"
 
 		return "ok"
 	case "fault":
